@@ -287,6 +287,14 @@ func (s *Solver) Check(extra *Term, wantModel []*Term) (string, []*big.Int) {
 		}
 	}
 	s.send("(pop 1)")
+	if d := os.Getenv("VERIF_DUMPQ"); d != "" && time.Since(start) > 1500*time.Millisecond {
+		dumpCounter++
+		x := ""
+		if extra != nil {
+			x = "(assert " + extra.ref() + ")\n"
+		}
+		os.WriteFile(fmt.Sprintf("%s/slow%d_%d_%s.smt2", d, os.Getpid(), dumpCounter, res), []byte(s.script.String()+x+"(check-sat)\n"), 0o644)
+	}
 	if res == "unknown" {
 		s.PrimaryUnknown++
 		if r2, m2, who := s.fallback(extra, wantModel); r2 != "" {
@@ -295,6 +303,14 @@ func (s *Solver) Check(extra *Term, wantModel []*Term) (string, []*big.Int) {
 		}
 	}
 	if res == "error" {
+		if d := os.Getenv("VERIF_DUMPQ"); d != "" {
+			dumpCounter++
+			x := ""
+			if extra != nil {
+				x = "(assert " + extra.ref() + ")\n"
+			}
+			os.WriteFile(fmt.Sprintf("%s/died%d_%d.smt2", d, os.Getpid(), dumpCounter), []byte(s.script.String()+x+"(check-sat)\n"), 0o644)
+		}
 		s.Close()
 		s.start()
 	}
